@@ -162,6 +162,21 @@ pub fn judge_shape(cfg: &Cfg, input: &str, via_parser: bool, st: Option<&mut Sta
         obs::build(GenericPurlBuilder::new(Shape::new(cfg, "custom"), input).with_namespace("ns0").with_version("v0"))
     };
     let log = shapes::take_log();
+    // the one-step constructor is a build() too
+    let mut new_fail = None;
+    if !via_parser {
+        match obs::guard("GenericPurl::new", || purl::GenericPurl::new(Shape::new(cfg, "custom"), input)) {
+            Out::Ok(Ok(p)) => {
+                new_fail = invariant(&p, false, None).map(|f| Fail::tagged(f.kind, f.tag, format!("GenericPurl::new: {}", f.detail)));
+            },
+            Out::Panic(m) => new_fail = Some(Fail::tagged("panicked", m.clone(), format!("GenericPurl::new with user shape {cfg:?} on {input:?}: {m}"))),
+            _ => {},
+        }
+        let _ = shapes::take_log();
+    }
+    if new_fail.is_some() {
+        return new_fail;
+    }
     match out {
         Out::Ok(p) => {
             let f = invariant(&p, false, None);
